@@ -125,6 +125,35 @@ Definition heap_depth (h : heap) : nat := fold_right (fun ao m => Nat.max (obj_d
 Definition walk_fuel (h : heap) (v : hv) : nat :=
   ((2 * length h + 2) * (length h + 2) * (Nat.max (heap_depth h) (depth v) + 2))%nat.
 
+(* ---- a ranking of the backing arrays for the slice-acyclicity guard wf_rankb,
+   computed by a fuelled DFS: rank a = 0 when no element of a holds a slice
+   inline, else 1 + the largest rank of the arrays those slices refer to.  (The
+   guard itself re-checks the ranking, so nothing has to be proved about this
+   computation; on a cycle made of slices only it runs out of fuel and the guard
+   fails.) ---- *)
+Definition obj_inline_slices (o : obj) : list sref :=
+  match o with
+  | OCell v => inline_slices v
+  | OMap kvs => flat_map (fun kv => inline_slices (fst kv) ++ inline_slices (snd kv)) kvs
+  | OArr es => flat_map inline_slices es
+  end.
+
+Fixpoint arr_rank (fuel : nat) (h : heap) (a : addr) : nat :=
+  match fuel with
+  | O => O
+  | S f =>
+      match hget h a with
+      | Some (OArr es) =>
+          fold_right (fun s m => Nat.max (S (arr_rank f h (s_arr s))) m) O (flat_map inline_slices es)
+      | _ => O
+      end
+  end.
+
+Definition compute_rk (h : heap) : list (addr * nat) :=
+  flat_map (fun ao => match snd ao with OArr _ => [(fst ao, arr_rank (S (length h)) h (fst ao))] | _ => [] end) h.
+
+Definition rank_bound (rk : list (addr * nat)) : nat := S (fold_right (fun ar m => Nat.max (snd ar) m) O rk).
+
 (* ---- type graphs (finding 15): nodes are struct types, an edge for every
    exported, non-omitted field whose type is that struct or a pointer to it.
    Pointerify recurses along exactly these edges whatever the values are, so
